@@ -104,11 +104,55 @@ def respond(falcon, resp, plan, dg):
         resp.content_type = 'application/octet-stream'
     elif kind == 'empty':
         resp.set_header('X-Digest-Path', urllib.parse.quote(dg['path']))
+    elif kind == 'renderfail':
+        # rendering the responder's answer fails AFTER the responder returned: the app hands the
+        # exception to the error handlers and must send what THEY composed
+        resp.set_header('X-Digest-Path', urllib.parse.quote(dg['path']))
+        resp.media = unrenderable(plan['how'])
+        if plan['how'] == 'no-handler':
+            resp.content_type = plan['content_type']
     elif kind == 'bodies':
         # every subset of the three body sources, falsy-but-not-None values included, in any order
         resp.set_header('X-Digest-Path', urllib.parse.quote(dg['path']))
         for attr_name, tag, value in plan['sources']:
             setattr(resp, attr_name, body_value(tag, value))
+
+
+class Opaque:
+    """not serializable by any media handler"""
+
+
+def unrenderable(how):
+    if how == 'unserializable':
+        return Opaque()
+    if how == 'unserializable-nested':
+        return {'k': [1, Opaque()]}
+    if how == 'unserializable-set':
+        return {1, 2}
+    return {'a': 1}          # 'no-handler': fine as JSON, but the content type has no handler
+
+
+def custom_error(falcon, resp, ex, mode):
+    """The generated custom error handler (same code on both stacks)."""
+    resp.status = falcon.HTTP_500 if not isinstance(ex, falcon.HTTPError) else ex.status
+    resp.set_header('X-Handled', type(ex).__name__)
+    how, reset_ct = mode
+    if reset_ct:
+        resp.content_type = falcon.MEDIA_JSON
+    if how == 'media':
+        resp.media = {'error': type(ex).__name__, 'list': [1, 2]}
+    elif how == 'media-falsy':
+        resp.media = {}
+    elif how == 'text':
+        resp.text = 'custom error text \xe9'
+    elif how == 'data':
+        resp.data = b'custom error data'
+    elif how == 'bad-media':
+        resp.media = Opaque()          # second failure: the response must be bodiless
+    elif how == 'nothing':
+        pass
+    elif how == 'raise-http':
+        raise falcon.HTTPBadRequest(title='from handler', description='d')
 
 
 def body_value(tag, value):
@@ -253,7 +297,7 @@ def drive_wsgi(app, r):
     env = {'REQUEST_METHOD': r['method'], 'PATH_INFO': raw.decode('latin-1'), 'QUERY_STRING': r['query'],
            'SCRIPT_NAME': r['root_path'], 'SERVER_NAME': r['host'].strip('[]'), 'SERVER_PORT': str(r['port']),
            'SERVER_PROTOCOL': 'HTTP/1.1', 'wsgi.url_scheme': r['scheme'], 'wsgi.input': io.BytesIO(r['body']),
-           'wsgi.errors': sys.stderr, 'REMOTE_ADDR': r['remote'], 'wsgi.version': (1, 0),
+           'wsgi.errors': io.StringIO(), 'REMOTE_ADDR': r['remote'], 'wsgi.version': (1, 0),
            'wsgi.multithread': False, 'wsgi.multiprocess': False, 'wsgi.run_once': False}
     for n, v in full_headers(r):
         key = n.upper().replace('-', '_')
@@ -338,7 +382,7 @@ def drive_testing(testing, app, r):
     hs = list(r['headers']) + [('User-Agent', UA)]
     kw = dict(headers=hs, body=r['body'] or None,
               host=r['host'], port=r['port'], protocol=r['scheme'], remote_addr=r['remote'],
-              root_path=r['root_path'] or None)
+              root_path=r['root_path'] or None, wsgierrors=io.StringIO())
     kw.update(testing_target(r))
     res = cl.simulate_request(r['method'], **kw)
     return norm_result(res.status, list(res.headers.items()), res.content,
@@ -347,7 +391,7 @@ def drive_testing(testing, app, r):
 
 # --------------------------------------------------------------------------- main
 
-def build_apps(falcon, opts, state):
+def build_apps(falcon, opts, state, custom=False):
     import falcon.asgi
 
     class Res:
@@ -372,11 +416,25 @@ def build_apps(falcon, opts, state):
     async def asink(req, resp, **kw):
         await ARes()._h(req, resp)
 
+    from falcon import media as falcon_media
+
+    def on_error(req, resp, ex, params):
+        custom_error(falcon, resp, ex, state['plan']['err_mode'])
+
+    async def a_on_error(req, resp, ex, params):
+        custom_error(falcon, resp, ex, state['plan']['err_mode'])
+
     wapp, aapp = falcon.App(), falcon.asgi.App()
     for app in (wapp, aapp):
         app.req_options.strip_url_path_trailing_slash = opts[0]
         app.req_options.keep_blank_qs_values = opts[1]
         app.req_options.auto_parse_qs_csv = opts[2]
+        # a registered non-JSON response handler, so that Accept can select it for error bodies
+        app.resp_options.media_handlers[falcon.MEDIA_URLENCODED] = falcon_media.URLEncodedFormHandler()
+    if custom:
+        for cls in (Exception, falcon.HTTPUnsupportedMediaType):
+            wapp.add_error_handler(cls, on_error)
+            aapp.add_error_handler(cls, a_on_error)
     wapp.add_sink(sink, '/')
     aapp.add_sink(asink, '/')
     return wapp, aapp
@@ -402,8 +460,26 @@ def gen_sources(rng):
 
 def gen_plan(rng):
     kind = rng.choice(['media', 'text', 'data', 'empty', 'notfound', 'redirect', 'badrequest', 'text', 'media',
-                       'bodies', 'bodies', 'bodies', 'bodies'])
-    return {'kind': kind, 'sources': gen_sources(rng) if kind == 'bodies' else [], 'status': rng.choice([200, 200, 201, 202]) if kind != 'empty' else rng.choice([200, 204]),
+                       'bodies', 'bodies', 'bodies', 'bodies', 'renderfail', 'renderfail', 'renderfail'])
+    extra = {}
+    if kind == 'renderfail':
+        extra = {'how': rng.choice(['unserializable', 'unserializable-nested', 'unserializable-set', 'no-handler',
+                                    'no-handler']),
+                 'content_type': rng.choice(['application/x-unknown', 'text/plain', 'image/png; q=1', 'nonsense']),
+                 'custom': rng.random() < 0.6,
+                 'err_mode': [rng.choice(['media', 'media', 'media-falsy', 'text', 'data', 'bad-media', 'nothing',
+                                          'raise-http']), rng.random() < 0.6],
+                 'accept': rng.choice([None, '', '*/*', 'application/json', 'application/xml', 'text/xml', 'text/html',
+                                       'application/x-www-form-urlencoded',
+                                       'application/x-www-form-urlencoded;q=0.9, text/plain',
+                                       'application/vnd.api+json', 'application/atom+xml', 'text/plain',
+                                       'application/x-www-form-urlencoded, application/json;q=0.5', 'junk'])}
+    return dict(extra, kind=kind, sources=gen_sources(rng) if kind == 'bodies' else [],
+                **plan_common(rng, kind))
+
+
+def plan_common(rng, kind):
+    return {'status': rng.choice([200, 200, 201, 202]) if kind != 'empty' else rng.choice([200, 204]),
             'set': [(rng.choice(['X-A', 'Cache-Control', 'Vary']), rng.choice(['1', 'no-cache', 'Accept']))
                     for _ in range(rng.randint(0, 2))],
             'append': [rng.choice([('X-A', 'z'), ('X-A', 'raw=1'), ('Link', '</x>; rel=next'), ('Set-Cookie', 'raw=1'),
@@ -496,6 +572,8 @@ def main(ctx):
     import falcon
     import falcon.asgi
     from falcon import testing
+    import logging
+    logging.getLogger('falcon').setLevel(logging.CRITICAL + 1)   # unhandled-error tracebacks of the plans
     model = common.Model(ctx)
     rng = ctx.rng
     quick = ctx.tier == 'quick'
@@ -517,11 +595,20 @@ def main(ctx):
     cases, meta = [], []
     for i in range(n):
         opts = (rng.random() < 0.3, rng.random() < 0.7, rng.random() < 0.3)
-        if opts not in apps:
-            apps[opts] = build_apps(falcon, opts, state)
-        wapp, aapp = apps[opts]
         r = gen_req(rng)
-        state['plan'] = gen_plan(rng)
+        state['plan'] = plan = gen_plan(rng)
+        custom = bool(plan.get('custom'))
+        if plan['kind'] == 'renderfail':
+            # the Accept header decides which handler serializes a default error response
+            r['headers'] = [h for h in r['headers'] if h[0].lower() != 'accept']
+            if plan['accept'] is not None:
+                r['headers'].append(('Accept', plan['accept']))
+            if r['method'] == 'HEAD':
+                r['method'] = 'GET'
+            ctx.count('renderfail-' + plan['how'] + ('-custom-' + plan['err_mode'][0] if custom else '-default'))
+        if (opts, custom) not in apps:
+            apps[(opts, custom)] = build_apps(falcon, opts, state, custom)
+        wapp, aapp = apps[(opts, custom)]
         results, digests = {}, {}
         for name, fn in (('wsgi-driver', lambda: drive_wsgi(wapp, r)), ('asgi-driver', lambda: drive_asgi(aapp, r)),
                          ('wsgi-testing', lambda: drive_testing(testing, wapp, r)),
